@@ -11,7 +11,7 @@ Lemma hook_log_l ps v :
   o_log (invoke ps v) = fst (cut (concat (firstn (reach v) (msg_stages ps (i_body v))))).
 Proof.
   rewrite invoke_eq. unfold invoke_decl.
-  destruct (snd (cut (concat (firstn (reach v) (msg_stages ps (i_body v)))))) as [[s i]|].
+  destruct (snd (cut (concat (firstn (reach v) (msg_stages ps (i_body v)))))) as [h|].
   - destruct (is_early _); [reflexivity|]. destruct (i_via v); reflexivity.
   - destruct (i_via v) as [|[|]]; reflexivity.
 Qed.
@@ -92,7 +92,7 @@ Qed.
    participants before it *)
 Lemma stage_entry_view_l s url l ps j :
   s <> SU -> s <> SI -> j < length (parts s ps) ->
-  nth j (stage_full s url true (Some l) ps) (mkE s 0 url None [], false) =
+  nth j (stage_full s url true (Some l) ps) (mkE s 0 url None [], None) =
   (mkE s (q_idx (nth j (parts s ps) dq)) url
        (Some (l ++ marks s (firstn j (parts s ps))))
        (map q_idx (firstn j (parts s ps))),
@@ -239,23 +239,23 @@ Qed.
 (* exceptions                                                          *)
 (* ------------------------------------------------------------------ *)
 
-Lemma cut_none_iff l : snd (cut l) = None <-> forall x, In x l -> snd x = false.
+Lemma cut_none_iff l : snd (cut l) = None <-> forall x, In x l -> snd x = None.
 Proof.
   induction l as [|[e r] t IH]; cbn [cut].
   - split; [intros _ x []|reflexivity].
-  - destruct r.
-    + cbn. split; [discriminate|]. intro H. specialize (H (e, true) (or_introl eq_refl)). discriminate.
+  - destruct r as [x0|].
+    + cbn. split; [discriminate|]. intro H. specialize (H (e, Some x0) (or_introl eq_refl)). discriminate.
     + destruct (cut t) as [l' x']. cbn [snd] in *. rewrite IH. split.
       * intros H x [<-|Hx]; [reflexivity|apply H, Hx].
       * intros H x Hx. apply H. right. exact Hx.
 Qed.
 
-Lemma cut_last l s i :
-  snd (cut l) = Some (s, i) ->
-  exists e, last (fst (cut l)) e = e /\ e_site e = s /\ e_idx e = i /\ In e (fst (cut l)).
+Lemma cut_last l h :
+  snd (cut l) = Some h ->
+  exists e, last (fst (cut l)) e = e /\ e_site e = x_site h /\ e_idx e = x_idx h /\ In e (fst (cut l)).
 Proof.
   induction l as [|[e r] t IH]; cbn [cut]; [discriminate|].
-  destruct r.
+  destruct r as [x0|].
   - cbn. intro H. inversion H. exists e. repeat split; try reflexivity. left. reflexivity.
   - destruct (cut t) as [l' x']. cbn [fst snd] in *. intro H.
     destruct (IH H) as (e' & H1 & H2 & H3 & H4). exists e'.
@@ -263,29 +263,66 @@ Proof.
     destruct l' as [|a l'']; [destruct H4|]. cbn [last] in *. exact H1.
 Qed.
 
-(* the first raising hook among the stages the invocation goes through: its exception is
-   what the caller gets, and it is the last hook that ran *)
-Lemma hook_exception_propagates_l ps v s i :
-  snd (cut (concat (firstn (reach v) (msg_stages ps (i_body v))))) = Some (s, i) ->
-  (o_res (invoke ps v) = RHookExc s i \/ o_res2 (invoke ps v) = RHookExc s i) /\
-  exists e, last (o_log (invoke ps v)) e = e /\ e_site e = s /\ e_idx e = i.
+(* what the caller gets for an exception h in flight: through the service call the WebFault
+   handler of _MethodProxy.__call__ sees it, through RequestContext.process_reply nothing does *)
+Lemma exception_delivery_l ps v h :
+  snd (cut (concat (firstn (reach v) (msg_stages ps (i_body v))))) = Some h ->
+  (is_early (Some h) = true \/ i_via v = Direct ->
+     o_res (invoke ps v) = proxy v (raised h) /\ o_res2 (invoke ps v) = RNotRun) /\
+  (is_early (Some h) = false -> i_via v <> Direct -> o_res2 (invoke ps v) = raised h).
 Proof.
-  intro C. split.
-  - rewrite invoke_eq. unfold invoke_decl. rewrite C.
-    destruct (is_early (Some (s, i))); [left; reflexivity|].
-    destruct (i_via v); [left|right]; reflexivity.
-  - rewrite hook_log_l. destruct (cut_last _ _ _ C) as (e & H1 & H2 & H3 & _). eauto.
+  intro C. rewrite invoke_eq. unfold invoke_decl. rewrite C.
+  destruct (is_early (Some h)) eqn:E.
+  - split; [intros _; split; reflexivity|discriminate].
+  - split.
+    + intros [H|H]; [discriminate|]. rewrite H. split; reflexivity.
+    + intros _ H. destruct (i_via v); [contradiction|reflexivity].
+Qed.
+
+(* the first raising hook among the stages the invocation goes through: its exception -
+   of ANY class x_cls h - is what the caller gets, and it is the last hook that ran.  The
+   one place where suds looks at the class of what comes out of an invocation is the
+   service call's  except WebFault  with faults off, which hands the same object back as
+   (500, exception). *)
+Lemma hook_exception_propagates_l ps v h :
+  snd (cut (concat (firstn (reach v) (msg_stages ps (i_body v))))) = Some h ->
+  let r := RHookExc (x_site h) (x_idx h) (x_cls h) in
+  ((o_res (invoke ps v) = r \/ o_res2 (invoke ps v) = r) \/
+   (is_webfault (x_cls h) = true /\ i_faults v = false /\
+    o_res (invoke ps v) = RHookRet (x_site h) (x_idx h) (x_cls h))) /\
+  (is_webfault (x_cls h) && negb (i_faults v) = false ->
+   o_res (invoke ps v) = r \/ o_res2 (invoke ps v) = r) /\
+  exists e, last (o_log (invoke ps v)) e = e /\ e_site e = x_site h /\ e_idx e = x_idx h.
+Proof.
+  intro C. cbn zeta. destruct (exception_delivery_l ps v h C) as [D1 D2].
+  assert (o_res (invoke ps v) = proxy v (raised h) \/ o_res2 (invoke ps v) = raised h) as D.
+  { destruct (is_early (Some h)) eqn:E; [left; apply D1; auto|].
+    destruct (i_via v) eqn:V; [left; apply D1; auto|right; apply D2; congruence]. }
+  unfold proxy, raised in D.
+  split; [|split].
+  - destruct (is_webfault (x_cls h) && negb (i_faults v)) eqn:W.
+    + apply andb_true_iff in W as [W1 W2]. apply negb_true_iff in W2.
+      destruct D as [D|D]; [right; auto|left; right; exact D].
+    + left. exact D.
+  - intro W. rewrite W in D. exact D.
+  - rewrite hook_log_l. destruct (cut_last _ _ C) as (e & H1 & H2 & H3 & _). eauto.
 Qed.
 
 (* ... and some hook among them raising is enough for that *)
-Lemma raising_hook_reaches_caller_l ps v x :
-  In x (concat (firstn (reach v) (msg_stages ps (i_body v)))) -> snd x = true ->
-  exists s i, o_res (invoke ps v) = RHookExc s i \/ o_res2 (invoke ps v) = RHookExc s i.
+Lemma raising_hook_reaches_caller_l ps v y x :
+  In y (concat (firstn (reach v) (msg_stages ps (i_body v)))) -> snd y = Some x ->
+  exists h, (o_res (invoke ps v) = raised h \/ o_res2 (invoke ps v) = raised h \/
+             o_res (invoke ps v) = RHookRet (x_site h) (x_idx h) (x_cls h)) /\
+            exists y', In y' (concat (firstn (reach v) (msg_stages ps (i_body v)))) /\
+                       e_site (fst y') = x_site h /\ e_idx (fst y') = x_idx h /\
+                       snd y' = Some (x_cls h).
 Proof.
-  intros Hx Hr.
-  destruct (snd (cut (concat (firstn (reach v) (msg_stages ps (i_body v)))))) as [[s i]|] eqn:C.
-  - exists s, i. apply hook_exception_propagates_l, C.
-  - rewrite cut_none_iff in C. rewrite (C x Hx) in Hr. discriminate.
+  intros Hy Hr.
+  destruct (snd (cut (concat (firstn (reach v) (msg_stages ps (i_body v)))))) as [h|] eqn:C.
+  - exists h. split.
+    + destruct (hook_exception_propagates_l ps v h C) as [[[H|H]|(_ & _ & H)] _]; auto.
+    + apply cut_sites in C as (y' & H1 & H2 & H3 & _ & H4). exists y'. auto.
+  - rewrite cut_none_iff in C. rewrite (C y Hy) in Hr. discriminate.
 Qed.
 
 (* no hook raises: the caller never sees a hook exception *)
